@@ -19,7 +19,8 @@ RULE = ('random observations (3-16 dumps with scan/compscan/target structure and
         'list/array, name, ~name, comma string, list, tuple, object, description) x reset in {absent, auto, \'\', T, F, '
         'B, TF, TB, FB, TFB, permuted letters}; a case is one call in its history; non-trivial when the call carries at '
         'least one criterion or an explicit reset and the resulting selection is neither everything nor empty in all '
-        'three dimensions; distinct by (observation, history prefix)')
+        'three dimensions; distinct by (observation, history prefix); thorough tier adds all two-call histories over a '
+        'fixed alphabet and 300 histories on two synthetic MVF v4 data sets opened through VisibilityDataV4')
 ASSUMPTIONS = ['single spectral window and single subarray (spw = subarray = 0); multi-window switching is not modelled',
                'names cross the wire as integer ids assigned by the harness (katpoint name normalisation and '
                '_selection_to_list string splitting are performed by the real code on the implementation side and by '
@@ -108,6 +109,8 @@ def target_description(t):
 
 class Observation:
     """The generated observation, its real katdal DataSet and its wire encoding."""
+
+    compare_wf = True
 
     def __init__(self, spec):
         import katpoint
@@ -206,6 +209,73 @@ class Observation:
                           s['cs_target'][cs]])
         targets = [[[self.name_ids[norm_name(n)] for n in t['names']],
                     [self.tag_id(t['body'])] + [self.tag_id(x) for x in t['tags']]] for t in s['targets']]
+        cps = [self.input_id(a) + self.input_id(b) for a, b in self.cps]
+        return [dumps, 2, targets, self.fz, 2, cps]
+
+
+class DataSetObservation(Observation):
+    """The same interface over an already opened katdal data set of a real format class (thorough tier):
+    the observation structure is read back from the data set's own sensors, catalogue, spectral window and
+    subarray."""
+
+    compare_wf = False     # _flags_keep / _weights_keep are format-specific properties (C16)
+
+    def __init__(self, d):
+        self.d = d
+        d.select()
+        ts = np.asarray(d.sensor.timestamps[:], dtype=float)
+        self.timestamps = ts
+        self.T = len(ts)
+        dp = float(d.dump_period)
+        gaps = (ts - ts[0]) / dp
+        assert np.all(gaps == np.round(gaps)), 'timestamps are not on the dump grid'
+        sub = d.subarrays[0]
+        spw = d.spectral_windows[0]
+        self.kants = list(sub.ants)
+        self.cps = [(str(a), str(b)) for a, b in sub.corr_products]
+        self.B = len(self.cps)
+        self.F = int(spw.num_chans)
+        w = float(spw.channel_width) / 4
+        freqs = np.asarray(spw.channel_freqs, dtype=float)
+        self.fbase = float(freqs.min()) - 8 * w
+        fz = (freqs - self.fbase) / w
+        assert np.all(fz == np.round(fz)), 'channel frequencies are not on the quarter-channel grid'
+        self.fz = [int(x) for x in fz]
+
+        def per_dump(name):
+            return list(np.asarray(d.sensor[name]))
+        self.scan = [int(x) for x in per_dump('Observation/scan_index')]
+        self.state = [str(x) for x in per_dump('Observation/scan_state')]
+        self.cscan = [int(x) for x in per_dump('Observation/compscan_index')]
+        self.label = [str(x) for x in per_dump('Observation/label')]
+        self.tgt = [int(x) for x in per_dump('Observation/target_index')]
+        assert set(self.state) <= set(STATES) and set(self.label) <= set(LABELS)
+        targets = []
+        for t in d.catalogue.targets:
+            assert set(t.tags) <= set(TAGS), 'catalogue tag outside the harness vocabulary'
+            targets.append(dict(names=[t.name] + list(t.aliases), tags=list(t.tags)))
+        self.spec = dict(T=self.T, dp=dp, t0=float(ts[0]), gaps=[int(x) for x in gaps],
+                         sc_events=list(range(max(self.scan) + 2)), cs_events=list(range(max(self.cscan) + 2)),
+                         targets=targets, ants=[a.name for a in self.kants], w=w, real_format=type(d).__name__)
+        self.name_ids = {}
+        for t in targets:
+            for n in t['names']:
+                self.name_ids.setdefault(norm_name(n), len(self.name_ids))
+        self.weight_ids = {}
+
+    def fresh(self):
+        d = self.d
+        d.select()
+        d.select(weights='all', flags='all')
+        d._selection = {'spw': 0, 'subarray': 0}      # as after the constructor of the harness class
+        return d
+
+    def wire(self):
+        s = self.spec
+        dumps = [[4 * s['gaps'][i], self.scan[i], STATES.index(self.state[i]), self.cscan[i],
+                  LABELS.index(self.label[i]), self.tgt[i]] for i in range(self.T)]
+        targets = [[[self.name_ids[norm_name(n)] for n in t['names']], [self.tag_id(x) for x in t['tags']]]
+                   for t in s['targets']]
         cps = [self.input_id(a) + self.input_id(b) for a, b in self.cps]
         return [dumps, 2, targets, self.fz, 2, cps]
 
@@ -475,7 +545,7 @@ def observe(ob, d):
                 keys=list(d._selection.keys()),
                 nts=len(d.timestamps), scans=[int(x) for x in d.scan_indices], compscans=[int(x) for x in d.compscan_indices],
                 targets=[int(x) for x in d.target_indices],
-                wk=d._weights_keep, flk=d._flags_keep)
+                wk=d._weights_keep if ob.compare_wf else None, flk=d._flags_keep if ob.compare_wf else None)
 
 
 def expected_from_masks(ob, tk, fk, bk):
@@ -584,7 +654,7 @@ def run_history(ctx, ob, history, mouts, hid, note=True):
         if cur['keys'] != mkeys:
             ctx.disagree(call_signature(call, 'selection_keys'), case, cur['keys'], mkeys,
                          '_selection keys (order) differ from the model', kind='tie')
-        for nm, val, mid in (('weights', cur['wk'], mo[5]), ('flags', cur['flk'], mo[6])):
+        for nm, val, mid in ((('weights', cur['wk'], mo[5]), ('flags', cur['flk'], mo[6])) if ob.compare_wf else ()):
             exp_id = 0 if (isinstance(val, str) and val == 'all' and mid == 0) else ob.weight_ids.get(repr(val), -5)
             if exp_id != mid:
                 ctx.disagree(call_signature(call, nm + '_keep'), case, repr(val), mid,
@@ -672,6 +742,9 @@ def run(ctx):
         ctx.count('observations')
     # 3. exhaustive two-call histories over a fixed alphabet on a small observation
     exhaustive_pairs(ctx)
+    # 3b. the same histories on a real format class (MVF v4 from telstate + chunk store), thorough tier
+    if ctx.tier == 'thorough':
+        real_format_histories(ctx)
     # 4. cross-check of the extraction inside Coq (thorough tier)
     if ctx.tier == 'thorough':
         from vh import core
@@ -687,6 +760,43 @@ def run(ctx):
             if o != mo:
                 ctx.disagree('extraction_mismatch', dict(case=c), mo, o, 'extracted model differs from vm_compute', kind='tie')
         ctx.extra['in_coq_crosscheck'] = len(sample)
+
+
+def build_real(k):
+    """k-th synthetic MVF v4 data set (deterministic)."""
+    from fixtures import v4
+    ta = 'A | Aalias, radec bpcal, 19:39:25.03, -63:42:45.6'
+    tb = 'B, radec gaincal, 10:00:00.0, -30:00:00.0'
+    tc = 'C | Cee, radec target fluxcal, 05:00:00.0, -20:00:00.0'
+    cfg = [dict(T=10, F=4, ants=('m000', 'm001'), acts=((0, 'slew'), (2, 'track'), (5, 'slew'), (6, 'track'), (8, 'scan')),
+                targets=((0, ta), (5, tb)), labels=((0, 'track'), (5, 'raster'))),
+           dict(T=12, F=8, ants=('m000', 'm062', 'm063'), acts=((0, 'track'), (3, 'slew'), (4, 'track'), (9, 'stop')),
+                targets=((0, tc), (3, ta), (7, tc)), labels=((0, 'cal'), (3, 'track'), (7, 'point')))][k]
+    tmp = v4.scratch_dir('c02')
+    return v4.build_v4(tmp=tmp, seed=k, **cfg)
+
+
+def real_histories(k, n):
+    import random
+    x = build_real(k)
+    ob = DataSetObservation(x.d)
+    orng = random.Random(7700 + k)
+    return x, ob, [[gen_call(orng, ob) for _ in range(orng.randint(1, 8))] for _ in range(n)]
+
+
+def real_format_histories(ctx):
+    import shutil
+    n = ctx.scale(150, 150)
+    for k in range(2):
+        x, ob, histories = real_histories(k, n)
+        try:
+            mouts, _ = model_histories(ctx, ob, histories)
+            for j, (h, mo) in enumerate(zip(histories, mouts)):
+                run_history(ctx, ob, h, mo, dict(kind='real', k=k, n=n, j=j))
+            ctx.count('real_format_histories', len(histories))
+        finally:
+            shutil.rmtree(x.tmp, ignore_errors=True)
+    ctx.extra['real_format'] = 'VisibilityDataV4 x 2 synthetic data sets'
 
 
 def random_histories(oseed, per_obs):
@@ -787,6 +897,16 @@ def replay(ctx, doc):
         ob, histories = random_histories(hid['oseed'], hid['per_obs'])
     elif hid.get('kind') == 'pairs':
         ob, histories, _, _ = pair_histories(hid['seed'], hid['complete'])
+    elif hid.get('kind') == 'real':
+        import shutil
+        x, ob, histories = real_histories(hid['k'], hid['n'])
+        try:
+            h = histories[hid['j']]
+            mouts, _ = model_histories(ctx, ob, [h])
+            run_history(ctx, ob, h, mouts[0], hid)
+        finally:
+            shutil.rmtree(x.tmp, ignore_errors=True)
+        return
     else:
         return
     h = histories[hid['j']]
